@@ -412,12 +412,12 @@ def type_ok_for(ty, derived, combo):
     return True
 
 
-def random_typedef(rng, derived, entry=None, keys="distinct", max_fields=4, allow_generic=True, allow_p=True, boring_p=0.35, fnames=NAMES, vnames=VNAMES, tymap=None):
+def random_typedef(rng, derived, entry=None, keys="distinct", max_fields=4, allow_generic=True, allow_p=True, boring_p=0.35, fnames=NAMES, vnames=VNAMES, tymap=None, generic_p=0.2):
     acc = accepted_for(derived)
     interesting = [c for c in acc if any(c[a] for a in R.OPS)]
     is_enum = rng.random() < 0.5
     closed = all(u in derived for t in derived for u in R.SUPER.get(t, []))
-    generic = allow_generic and closed and rng.random() < 0.2
+    generic = allow_generic and closed and rng.random() < generic_p
     def mkfields(kind):
         n = 0 if kind == "unit" else rng.randint(1, max_fields) if rng.random() < 0.9 else 0
         fs = []
